@@ -215,7 +215,7 @@ def subchecks(tier):
             prop,
             quick=4000,
             thorough=600000,
-            floors={"crosses_transition": 0.03, "starts_in_rampdown": 0.1, "cont": 0.3, "ideal": 0.08, "step": 0.08},
+            floors={"crosses_transition": 0.03, "starts_in_rampdown": 0.1, "cont": 0.205, "ideal": 0.08, "step": 0.051},
         )
     ]
 
